@@ -15,18 +15,23 @@ import (
 
 	"github.com/containerd/nri/pkg/adaptation"
 	"github.com/sirupsen/logrus"
+
+	"nriverif/ev"
 )
 
 // Process-wide timeouts (nri's setters are process-wide). Healthy latencies measured on this
-// box: launch to registered ≈ 5–10 ms per plugin, one request through one plugin < 1 ms.
+// box: launch to registered ≈ 7 ms per plugin, one request through one plugin < 1 ms, a
+// dropped plugin's process gone ≤ 1 ms after the request returned (nri kills it from a
+// goroutine; all other kills are synchronous). Every bound is ≥ 100 times the typical value.
 // A plugin that never registers costs one registration timeout, a plugin that hangs in a
-// handler one request timeout; at most one of each is generated per case.
+// handler one request timeout; at most one of each is generated per case. The thorough tier
+// runs 16 shards side by side and doubles the registration timeout.
+var regTimeout = time.Duration(ev.Pick(1000, 2000)) * time.Millisecond
+
 const (
-	regTimeout = 1500 * time.Millisecond
 	reqTimeout = 1 * time.Second
-	// how long a process nri stopped or dropped may take to disappear (typical: < 1 ms, the
-	// kill is synchronous except after a drop, where a goroutine does it: measured ≤ 1 ms)
-	deathBound = 2 * time.Second
+	// how long a process nri stopped or dropped may take to disappear
+	deathBound = 1 * time.Second
 )
 
 var (
